@@ -1,5 +1,28 @@
-(* placeholder until the refinement proofs land: statements are added with their proofs *)
-From GM Require Import Base.Topic Model.SubTrie Model.SubSpec Proofs.TopicP.
-Theorem C02_split_join : forall s : str, join (split s) = s.
-Proof. exact join_split. Qed.
-Print Assumptions C02_split_join.
+(* C02 - subscription index answers match MQTT topic-matching rules after any history.
+   Statements only. *)
+From Coq Require Import List NArith.
+Import ListNotations.
+From GM Require Import Base.Topic Model.TopicMatch Proofs.TopicP Proofs.TopicMatchP.
+
+(* The exported TopicMatch helper (two-cursor byte loop) decides the MQTT 4.7 relation on
+   every well-formed (topic name, topic filter) pair, and never runs out of fuel. *)
+Theorem C02_topicmatch_equiv :
+  forall t f : str,
+    valid_name_spec t = true -> valid_filter_spec f = true ->
+    tm_impl t f = Some (topic_match t f).
+Proof. exact tm_impl_equiv. Qed.
+Print Assumptions C02_topicmatch_equiv.
+
+Theorem C02_topicmatch_total :
+  forall t f : str, exists b, tm_impl t f = Some b.
+Proof. exact tm_impl_terminates. Qed.
+Print Assumptions C02_topicmatch_total.
+
+(* the finite list of filter paths visited by the trie walk is exactly the set of
+   filters matching the topic, each once *)
+Theorem C02_candidates_exact :
+  forall (ts f : list level),
+    ts <> [] -> no_wild_levels ts = true ->
+    (In f (cands ts) <-> lm ts f = true) /\ NoDup (cands ts).
+Proof. intros ts f H1 H2. split; [exact (cands_lm_nowild ts f H1 H2)|exact (cands_nodup ts H2)]. Qed.
+Print Assumptions C02_candidates_exact.
